@@ -37,6 +37,9 @@ struct Link {
     delay_ms: u64,
     /// only the mempool connections (kind 2) of this directed link are cut; consensus traffic flows
     mp_cut: bool,
+    /// while the link is down, frames WAIT (arbitrary delay, no loss: "delayed but not lost") instead
+    /// of the connection being torn down (loss of whatever was in flight, as in a partition)
+    hold: bool,
 }
 
 type Links = Arc<Mutex<Vec<Vec<Link>>>>;
@@ -61,7 +64,12 @@ async fn pump(
 ) {
     let down = |l: Link| !l.up || (kind == 2 && l.mp_cut);
     while let Some(Ok(frame)) = from.next().await {
-        let l = links.lock().unwrap()[a][b];
+        let mut l = links.lock().unwrap()[a][b];
+        while down(l) && l.hold {
+            // lossless outage: the frame is delivered once the link is back
+            tokio::time::sleep(Duration::from_millis(50)).await;
+            l = links.lock().unwrap()[a][b];
+        }
         if down(l) {
             return;
         }
@@ -87,7 +95,7 @@ async fn spawn_proxy(base: u16, i: usize, j: usize, kind: u16, links: Links, hel
                 Err(_) => return,
             };
             let l = links.lock().unwrap()[i][j];
-            if !l.up || (kind == 2 && l.mp_cut) {
+            if (!l.up || (kind == 2 && l.mp_cut)) && !l.hold {
                 // partition: the connection hangs (no answer, no reset) until the link heals; closing
                 // it at once would make the reliable sender reconnect in a zero-delay loop
                 held.lock().unwrap().entry((i, j)).or_default().push(inbound);
@@ -136,7 +144,7 @@ impl Net {
         let mut rng = StdRng::from_seed(sb);
         let mut keys: Vec<_> = (0..n).map(|_| generate_keypair(&mut rng)).collect();
         keys.sort_by(|a, b| a.0.cmp(&b.0));
-        let links: Links = Arc::new(Mutex::new(vec![vec![Link { up: true, delay_ms: BASE_DELAY_MS, mp_cut: false }; n]; n]));
+        let links: Links = Arc::new(Mutex::new(vec![vec![Link { up: true, delay_ms: BASE_DELAY_MS, mp_cut: false, hold: false }; n]; n]));
         let held: Held = Arc::new(Mutex::new(std::collections::HashMap::new()));
         let dir = format!("/verif/work/net_{}_{}", std::process::id(), seed);
         let _ = std::fs::remove_dir_all(&dir);
@@ -200,12 +208,19 @@ impl Net {
         {
             let mut g = self.links.lock().unwrap();
             let mp_cut = g[a][b].mp_cut;
-            g[a][b] = Link { up, delay_ms, mp_cut };
+            g[a][b] = Link { up, delay_ms, mp_cut, hold: false };
         }
         if up {
             // reset the connections that hung during the partition: the senders reconnect
             self.held.lock().unwrap().remove(&(a, b));
         }
+    }
+    /// An outage WITHOUT loss: while `up` is false every frame on the link waits and is delivered when
+    /// the link comes back (C06: "messages may be delayed arbitrarily but are not lost").
+    pub fn set_link_lossless(&self, a: usize, b: usize, up: bool, delay_ms: u64) {
+        let mut g = self.links.lock().unwrap();
+        let mp_cut = g[a][b].mp_cut;
+        g[a][b] = Link { up, delay_ms, mp_cut, hold: true };
     }
     /// Cut / heal only the mempool connections from `a` to `b` (batch broadcasts, batch requests);
     /// consensus messages keep flowing, so no view change is provoked.
@@ -343,7 +358,9 @@ fn scenario_liveness(seed: u64, rep: &mut Report) {
                 let b = rng.gen_range(0, n);
                 if a != b {
                     let up = rng.gen_bool(0.7);
-                    net.set_link(a, b, up, rng.gen_range(1, 3 * TIMEOUT_MS / 2));
+                    // before the network stabilises messages are delayed at will but never lost (the
+                    // property's premise; a TC broadcast, for one, is sent exactly once, best-effort)
+                    net.set_link_lossless(a, b, up, rng.gen_range(1, 3 * TIMEOUT_MS / 2));
                 }
             }
             for (k, c) in crashed.iter().enumerate() {
